@@ -4,7 +4,19 @@ open Conv
    parses the case into Machine/Syntax.v terms, runs Sem.run; rendering of metadata values to the strings
    machine.NewStringFromValue produces (big.Rat.String for portions) and sorting of maps happen here. ---- *)
 let cs x = chars_of_string (atom x)
-let qof n d = { Model.qnum = zarg n; Model.qden = pos_of_z (BigZ.of_string (atom d)) }
+(* portions enter the model as reduced fractions (what ParsePortionSpecific / big.Rat hand to the compiler) *)
+let qof n d =
+  let n = BigZ.of_string (atom n) and d = BigZ.of_string (atom d) in
+  let g = BigZ.gcd n d in let g = if BigZ.sign g = 0 then BigZ.one else g in
+  { Model.qnum = coqz_of_z (BigZ.div n g); Model.qden = pos_of_z (BigZ.div d g) }
+(* a portion given as text: Lex.parse_portion (machine.ParsePortionSpecific); unparsable text and a zero denominator
+   become a portion outside [0,1], which Sem rejects where Go returns the error (compile / invalid vars / resolve) *)
+let bad_portion = { Model.qnum = coqz_of_z (BigZ.of_int 2); Model.qden = pos_of_z BigZ.one }
+let qnormq (q : Model.q) =
+  let n = z_of_coqz q.Model.qnum and d = z_of_pos q.Model.qden in
+  let g = BigZ.gcd n d in let g = if BigZ.sign g = 0 then BigZ.one else g in
+  { Model.qnum = coqz_of_z (BigZ.div n g); Model.qden = pos_of_z (BigZ.div d g) }
+let qtext s = match Model.parse_portion (cs s) with Some q -> qnormq q | None -> bad_portion
 let acc = function L [A "alit"; s] -> Model.AccLit (cs s) | L [A "avar"; s] -> Model.AccVar (cs s) | _ -> failwith "acc"
 let asset = function L [A "slit"; s] -> Model.AssetLit (cs s) | L [A "svar"; s] -> Model.AssetVar (cs s) | _ -> failwith "asset"
 let rec mon = function
@@ -14,11 +26,11 @@ let rec mon = function
   | L [A "msub"; l; r] -> Model.MonSub (mon l, mon r)
   | _ -> failwith "mon"
 let portion = function
-  | L [A "pc"; n; d] -> Model.PConst (qof n d) | L [A "pv"; x] -> Model.PVar (cs x) | L [A "prem"] -> Model.PRemaining
+  | L [A "pc"; n; d] -> Model.PConst (qof n d) | L [A "pcs"; s] -> Model.PConst (qtext s) | L [A "pv"; x] -> Model.PVar (cs x) | L [A "prem"] -> Model.PRemaining
   | _ -> failwith "portion"
 let valexpr = function
   | L [A "vacc"; s] -> Model.VEAcc (cs s) | L [A "vasset"; s] -> Model.VEAsset (cs s) | L [A "vnum"; n] -> Model.VENum (zarg n)
-  | L [A "vstr"; s] -> Model.VEStr (cs s) | L [A "vpor"; n; d] -> Model.VEPortion (qof n d) | L [A "vmon"; m] -> Model.VEMon (mon m)
+  | L [A "vstr"; s] -> Model.VEStr (cs s) | L [A "vpor"; n; d] -> Model.VEPortion (qof n d) | L [A "vpors"; s] -> Model.VEPortion (qtext s) | L [A "vmon"; m] -> Model.VEMon (mon m)
   | L [A "vvar"; x] -> Model.VEVar (cs x) | _ -> failwith "valexpr"
 let rec source = function
   | L [A "sacc"; a; od] ->
@@ -60,7 +72,7 @@ let decl = function
 let value = function
   | L [A "account"; s] -> Model.VAccount (cs s) | L [A "asset"; s] -> Model.VAsset (cs s) | L [A "number"; n] -> Model.VNumber (zarg n)
   | L [A "string"; s] -> Model.VString (cs s) | L [A "monetary"; a; n] -> Model.VMonetary (cs a, Some (zarg n))
-  | L [A "portion"; n; d] -> Model.VPortion (qof n d) | _ -> failwith "value"
+  | L [A "portion"; n; d] -> Model.VPortion (qof n d) | L [A "portions"; s] -> Model.VPortion (qtext s) | _ -> failwith "value"
 
 let str l = string_of_chars l
 (* machine.NewStringFromValue *)
@@ -107,7 +119,11 @@ let () = register "nslex" (fun c ->
   | L [A "lex"; s] ->
     let b x = A (if x then "true" else "false") in
     let s = cs s in
-    L [b (Model.valid_address s); b (Model.valid_asset s); b (Model.lexer_asset s && Model.valid_asset s)]
+    let por = (match Model.parse_portion s with
+      | Some q when (BigZ.sign (z_of_coqz q.Model.qnum) >= 0 && BigZ.leq (z_of_coqz q.Model.qnum) (z_of_pos q.Model.qden)) ->
+        let q = qnormq q in "ok " ^ string_of_coqz q.Model.qnum ^ "/" ^ BigZ.to_string (z_of_pos q.Model.qden)
+      | _ -> "err") in
+    L [b (Model.valid_address s); b (Model.valid_asset s); b (Model.lexer_asset s && Model.valid_asset s); S por]
   | _ -> failwith "bad lex case")
 
 (* ---- nstx: (tx <force> ((src dst asset amt)...) ((acc asset bal)...)) -> (ok (postings)) | (err class) | (panic)
@@ -124,3 +140,82 @@ let () = register "nstx" (fun c ->
        L [A "ok"; L (List.map (fun (p : Model.npost) -> L [S (str p.Model.psrc); S (str p.Model.pdst); S (str p.Model.passet); zout p.Model.pamt])
                        (Model.all_postings r))])
   | _ -> failwith "bad tx case")
+
+(* ---- nsbc: (nsbc <ns case> <real program | (nocompile)>) -> (bc <model-compiled program> <model VM result on the REAL program>) ---- *)
+let hex_of_bytes (l : int list) = String.concat "" (List.map (Printf.sprintf "%02x") l)
+let bytes_of_hex (s : string) = List.init (String.length s / 2) (fun i -> int_of_string ("0x" ^ String.sub s (2 * i) 2))
+let tyname = function
+  | Model.TAccount -> "account" | Model.TAsset -> "asset" | Model.TNumber -> "number" | Model.TString -> "string"
+  | Model.TMonetary -> "monetary" | Model.TPortion -> "portion"
+let qnorm (q : Model.q) =
+  let n = z_of_coqz q.Model.qnum and d = z_of_pos q.Model.qden in
+  let g = BigZ.gcd n d in let g = if BigZ.sign g = 0 then BigZ.one else g in
+  (BigZ.to_string (BigZ.div n g), BigZ.to_string (BigZ.div d g))
+let cval_sx = function
+  | Model.CAccount s -> L [A "const"; A "account"; S (str s)] | Model.CAsset s -> L [A "const"; A "asset"; S (str s)]
+  | Model.CNumber n -> L [A "const"; A "number"; zout n] | Model.CString s -> L [A "const"; A "string"; S (str s)]
+  | Model.CPortion q -> let (n, d) = qnorm q in L [A "const"; A "portion"; A n; A d]
+  | Model.CRemaining -> L [A "const"; A "remaining"]
+let nat_sx n = A (string_of_int (int_of_nat n))
+let cres_sx = function
+  | Model.KConst c -> cval_sx c
+  | Model.KVar (t, x) -> L [A "var"; A (tyname t); S (str x)]
+  | Model.KVarMeta (t, x, a, k) -> L [A "varmeta"; A (tyname t); S (str x); nat_sx a; S (str k)]
+  | Model.KVarBal (x, a, s) -> L [A "varbal"; S (str x); nat_sx a; nat_sx s]
+  | Model.KMon (a, n) -> L [A "mon"; nat_sx a; zout n]
+let cprog_sx (cp : Model.cprogram) =
+  let bytes = List.map int_of_nat (Model.encode cp.Model.cp_instrs) in
+  let nd = List.sort_uniq compare (List.map (fun (a, m) -> (int_of_nat a, int_of_nat m)) cp.Model.cp_needed) in
+  L [A "prog"; S (hex_of_bytes bytes); L (List.map cres_sx cp.Model.cp_res);
+     L (List.map (fun (a, m) -> L [A (string_of_int a); A (string_of_int m)]) nd)]
+let rec decode = function
+  | [] -> []
+  | 1 :: lo :: hi :: r -> Model.IApush (nat_of_int (lo + 256 * hi)) :: decode r
+  | op :: r ->
+    (match op with
+     | 2 -> Model.IBump | 3 -> Model.IDelete | 4 -> Model.IIadd | 5 -> Model.IIsub | 6 -> Model.IPrint | 7 -> Model.IFail
+     | 8 -> Model.IAsset | 9 -> Model.IMonetaryNew | 10 -> Model.IMonetaryAdd | 11 -> Model.IMonetarySub
+     | 12 -> Model.IMakeAllotment | 13 -> Model.ITakeAll | 14 -> Model.ITakeAlways | 15 -> Model.ITake | 16 -> Model.ITakeMax
+     | 17 -> Model.IFundingAssemble | 18 -> Model.IFundingSum | 19 -> Model.IFundingReverse | 20 -> Model.IRepay
+     | 21 -> Model.IAlloc | 22 -> Model.ISend | 23 -> Model.ITxMeta | 24 -> Model.IAccountMeta | 25 -> Model.ISave
+     | _ -> failwith "bad opcode") :: decode r
+let natarg x = nat_of_int (int_of_string (atom x))
+let cval_of = function
+  | [A "account"; s] -> Model.CAccount (cs s) | [A "asset"; s] -> Model.CAsset (cs s) | [A "number"; n] -> Model.CNumber (zarg n)
+  | [A "string"; s] -> Model.CString (cs s) | [A "portion"; n; d] -> Model.CPortion (qof n d) | [A "remaining"] -> Model.CRemaining
+  | _ -> failwith "cval"
+let cres_of = function
+  | L (A "const" :: r) -> Model.KConst (cval_of r)
+  | L [A "var"; A t; x] -> Model.KVar (ty t, cs x)
+  | L [A "varmeta"; A t; x; a; k] -> Model.KVarMeta (ty t, cs x, natarg a, cs k)
+  | L [A "varbal"; x; a; s] -> Model.KVarBal (cs x, natarg a, natarg s)
+  | L [A "mon"; a; n] -> Model.KMon (natarg a, zarg n)
+  | _ -> failwith "cres"
+let vresult_sx = function
+  | Model.Panic -> L [A "panic"]
+  | Model.Err e -> L [A "err"; A (errname e)]
+  | Model.Ok (r : Model.vresult) ->
+    let posts = List.map (fun (p : Model.npost) -> L [S (str p.Model.psrc); S (str p.Model.pdst); S (str p.Model.passet); zout p.Model.pamt]) r.Model.vr_posts in
+    let tx = List.sort compare (List.map (fun (k, v) -> (str k, render v)) r.Model.vr_tx) in
+    let am = List.sort compare (List.map (fun ((a, k), v) -> (str a, str k, render v)) r.Model.vr_acc) in
+    let ini k = (match Model.bget r.Model.vr_init k with Some z -> z | None -> Model.Z0) in
+    let bl = List.sort compare (List.map (fun ((a, s), z) -> (str a, str s, string_of_coqz (ini (a, s)), string_of_coqz z)) r.Model.vr_bal) in
+    L [A "ok"; L posts; L (List.map (fun (k, v) -> L [S k; S v]) tx);
+       L (List.map (fun (a, k, v) -> L [S a; S k; S v]) am);
+       L (List.map (fun (a, s, i, f) -> L [S a; S s; A i; A f]) bl)]
+let () = register "nsbc" (fun c ->
+  match c with
+  | L [A "nsbc"; L [A "ns"; L ds; L ss; L gs; L bs; L ms]; real] ->
+    let p = { Model.pvars = List.map decl ds; Model.pstmts = List.map stmt ss } in
+    let given = List.map (function L [n; v] -> (cs n, value v) | _ -> failwith "given") gs in
+    let st = { Model.st_bal = List.map (function L [a; s; n] -> ((cs a, cs s), zarg n) | _ -> failwith "bal") bs;
+               Model.st_meta = List.map (function L [a; k; v] -> ((cs a, cs k), value v) | _ -> failwith "meta") ms } in
+    let modelprog = (match Model.compile p with None -> L [A "nocompile"] | Some cp -> cprog_sx cp) in
+    let res = (match real with
+      | L [A "prog"; hx; L rs; L nd] ->
+        let cp = { Model.cp_instrs = decode (bytes_of_hex (atom hx)); Model.cp_res = List.map cres_of rs;
+                   Model.cp_needed = List.map (function L [a; m] -> (natarg a, natarg m) | _ -> failwith "needed") nd } in
+        vresult_sx (Model.run_program cp given st)
+      | _ -> L [A "err"; A "compile"]) in
+    L [A "bc"; modelprog; res]
+  | _ -> failwith "bad nsbc case")
